@@ -222,31 +222,41 @@ def checks (w : World) : Label → Checks
 def releaseRl (w : World) (b : BId) : World :=
   (w.modBus b fun B => { B with rl := .polling }).setLock none
 
+/-- stage 1 of `dispatch`: parent from the handler context (skipped when forwarding the handled event itself) -/
+def dParent (w : World) (ctx : Option (EId × BId × HId)) (e : EId) : World :=
+  match ctx with
+  | some (ce, _, _) => if (w.ev e).parent.isNone && ce != e then w.modEv e fun E => { E with parent := some ce } else w
+  | none => w
+
+/-- stage 2: the bus is appended to the event's path unless already there -/
+def dPath (w : World) (b : BId) (e : EId) : World :=
+  if (w.ev e).path.contains b then w else w.modEv e fun E => { E with path := E.path ++ [b] }
+
+/-- ghost: a forwarding instance has issued its dispatch -/
+def dFwd (w : World) : Proc → World
+  | .inst i => if (w.inst i).kind.isForward then w.modInst i fun I => { I with fwdDone := true } else w
+  | _ => w
+
+/-- stage 3 (accepted only): queue, history, unfinished-task counter -/
+def dEnqueue (w : World) (b : BId) (e : EId) : World :=
+  w.modBus b fun B =>
+    { B with queue := B.queue ++ [e],
+             hist := if B.hist.contains e then B.hist else B.hist ++ [e],
+             unfinished := B.unfinished + 1 }
+
+/-- stage 4 (accepted only): the event becomes a child of the dispatching handler's result -/
+def dChild (w : World) (ctx : Option (EId × BId × HId)) (e : EId) : World :=
+  match ctx with
+  | some (ce, cb, ck) =>
+    if ce != e then w.modEv ce fun C => C.updRes cb ck fun r => { r with children := r.children ++ [e] } else w
+  | none => w
+
 def applyDispatch (w : World) (p : Proc) (b : BId) (e : EId) (res : DRes) : World :=
   let ctx := ctxOf w p
-  -- parent from context (skipped when forwarding the handled event itself)
-  let w := w.modEv e fun E =>
-    match E.parent, ctx with
-    | none, some (ce, _, _) => if ce != e then { E with parent := some ce } else E
-    | _, _ => E
-  -- bus appended to the path
-  let w := w.modEv e fun E => if E.path.contains b then E else { E with path := E.path ++ [b] }
-  let w := match p with
-    | .inst i => w.modInst i fun I => if I.kind.isForward then { I with fwdDone := true } else I
-    | _ => w
+  let w1 := dFwd (dPath (dParent w ctx e) b e) p
   match res with
-  | .ok =>
-    let w := w.modBus b fun B =>
-      { B with queue := B.queue ++ [e],
-               hist := if B.hist.contains e then B.hist else B.hist ++ [e],
-               unfinished := B.unfinished + 1 }
-    -- child tracking, only once accepted
-    let w := match ctx with
-      | some (ce, cb, ck) =>
-        if ce != e then w.modEv ce fun C => C.updRes cb ck fun r => { r with children := r.children ++ [e] } else w
-      | none => w
-    cleanup w b
-  | _ => w
+  | .ok => cleanup (dChild (dEnqueue w1 b e) ctx e) b
+  | _ => w1
 
 def applyFinish (w : World) (i : IId) (r : Fin) : World :=
   let I := w.inst i
